@@ -15,7 +15,7 @@ from pyvc.source import Unsupported
 from pyvc.values import Builtin, FStr, Model, PyExc, to_real
 from pyvc.verify import unit
 
-LEVEL = 'proof'
+LEVEL = 'other'
 EXPLANATION = ('Postcondition of Weather.get_ground_speed taken from the property statement, proved for all '
                'headings / airspeeds / winds and for every cached state of the Weather object (representation '
                'invariant + preservation = every call history).')
